@@ -162,6 +162,12 @@ fn current_thread_role() -> Option<usize> {
     }
 }
 
+/// Collect ids are reported shifted by one so that 0 can stand for "none"; the id of unsampled
+/// traces (usize::MAX) is reported as 0.
+pub fn cid_out(c: usize) -> usize {
+    c.wrapping_add(1)
+}
+
 pub fn hex16(x: u64) -> String {
     format!("{:016x}", x)
 }
@@ -213,7 +219,7 @@ fn on_point(p: &Point) {
                         ("force", true) => *pk += 1,
                         ("send", false) | ("force", false) => {
                             ev = Some(json!({"ev":"push","t":t,"kind":a.last_kind,
-                                "cids":a.last_cids.iter().map(|c| c + 1).collect::<Vec<_>>()}));
+                                "cids":a.last_cids.iter().map(|c| cid_out(*c)).collect::<Vec<_>>()}));
                         }
                         ("exit", true) => {
                             *pk = pk.saturating_sub(1);
@@ -269,7 +275,7 @@ fn on_point(p: &Point) {
             commits,
             submits,
         } => {
-            let inc = |v: &Vec<usize>| v.iter().map(|c| c + 1).collect::<Vec<_>>();
+            let inc = |v: &Vec<usize>| v.iter().map(|c| cid_out(*c)).collect::<Vec<_>>();
             emit(json!({"ev":"process","starts":inc(starts),"drops":inc(drops),"commits":inc(commits),
                 "submits":submits.iter().map(inc).collect::<Vec<_>>()}));
         }
